@@ -136,66 +136,56 @@ Theorem C18_propagator_step_normalised :
 Proof. by move=> R conj conjK n X; apply: expm_step_real. Qed.
 Print Assumptions C18_propagator_step_normalised.
 
-(* ---- method "svd": Qobj(rho, isherm=True) then rho / rho.tr() ------------- *)
+(* ---- method "svd": Qobj(rho) then rho / rho.tr() (after the repair) -------- *)
 
-(* The divisor is re(tr V).  For a null vector with real trace the result is
-   right; for EVERY null vector whose trace is not real the returned operator
-   has trace != 1 and is not Hermitian. *)
-Theorem C18_svd_result_correct_iff_real_phase :
+(* For a null vector of ANY phase the returned operator is Hermitian, has unit
+   trace and is a fixed point (same normalisation as _steadystate_eigen). *)
+Theorem C18_svd_result_for_every_phase :
   forall (R : fieldType) (conj : {rmorphism R -> R}), involutive conj ->
   forall (n' : nat) (Lf : fmx R) (vf : fvec R),
   let n := n'.+1 in let NN := (n * n)%N in
   let L := mx_of_fn NN NN Lf in
-  (2%:R : R) != 0 -> hp conj L -> null_one_dim L -> L *m col_of_fn NN vf = 0 ->
-  let (Vf, d) := svd_post 0 +%R (re conj) n vf in
+  hp conj L -> null_one_dim L -> L *m col_of_fn NN vf = 0 ->
+  let (Vf, d) := svd_post 0 +%R n vf in
   d != 0 ->
-  let t := ftr 0 +%R n Vf in
   let rho := d^-1 *: mx_of_fn n n Vf in
-  (conj t = t -> [/\ dag conj rho = rho, \tr rho = 1 & L *m cvec rho = 0]) /\
-  (conj t != t -> \tr rho != 1 /\ dag conj rho != rho).
+  [/\ dag conj rho = rho, \tr rho = 1 & L *m cvec rho = 0].
 Proof.
-move=> R conj conjK n' Lf vf /= two Lhp N1 Lv.
-have := svd_post_bridge conj n' vf; rewrite /svd_post => ->.
-rewrite ftr_bridge unstack_bridge => d0; split.
-- move=> real; apply: svd_result_real_phase => //.
-  apply: contraNneq d0 => z; by rewrite /re z rmorph0 addr0 mulr0.
-- by move=> cplx; apply: svd_result_complex_phase.
+move=> R conj conjK n' Lf vf /= Lhp N1 Lv.
+have := svd_post_bridge n' vf; rewrite /svd_post => -> d0.
+by apply: svd_result => //; move: d0; rewrite ftr_bridge unstack_bridge.
 Qed.
-Print Assumptions C18_svd_result_correct_iff_real_phase.
+Print Assumptions C18_svd_result_for_every_phase.
 
-(* ... and such null vectors exist: Gaussian-integer witness (3-level system,
-   level 0 unpopulated in the stationary state), evaluated on the executable
-   model.  wL = 2 * liouvillian(H, c_ops), wv = (1+i) * vec(13 rho_ss). *)
-Theorem C18_svd_refuted :
-  exists (n : nat) (L : seq (seq GZ)) (v : seq GZ),
-    gz_is_zero_vec (gz_mulv (n * n) L v) = true /\
-    (gz_svd_post n v).2 <> (gz_eigen_post n v).2 /\
-    gz_adjoint_tab n (gz_svd_post n v).1 <> (gz_svd_post n v).1.
-Proof.
-exists 3%N, wL, wv; have [a b c d] := svd_witness.
-by split=> //; split=> //; rewrite b c.
-Qed.
-Print Assumptions C18_svd_refuted.
+(* the former counterexample (null vector of non-real trace of the 3-level
+   witness generator) is now normalised to the Hermitian rho_ss *)
+Theorem C18_svd_witness_normalised :
+  gz_is_zero_vec (gz_mulv 9 wL wv) = true /\
+  (gz_svd_post 3 wv).2 = (gz_eigen_post 3 wv).2 /\
+  (gz_svd_post 3 wv).1 = map (map (gzmul gz1i)) wrho /\
+  (gz_svd_post 3 wv).2 = gzmul gz1i gz13r /\
+  gz_adjoint_tab 3 wrho = wrho.
+Proof. by have [a b c [d _]] := svd_witness; split=> //; split=> //; split. Qed.
+Print Assumptions C18_svd_witness_normalised.
 
 (* ---- _steadystate_power iteration counter --------------------------------- *)
 Theorem C18_power_loop_returns_first_converged :
   forall maxiter conv k, power_result maxiter conv = Some k ->
-  [/\ (k < maxiter)%N, conv k & forall j, (j < k)%N -> ~~ conv j].
+  [/\ (k <= maxiter)%N, conv k & forall j, (j < k)%N -> ~~ conv j].
 Proof. exact: power_result_some. Qed.
 Print Assumptions C18_power_loop_returns_first_converged.
 
+(* an error is raised exactly when none of the iterates 0..maxiter converged *)
 Theorem C18_power_loop_raises_iff :
   forall maxiter conv,
-  power_result maxiter conv = None <-> (forall j, (j < maxiter)%N -> ~~ conv j).
+  power_result maxiter conv = None <-> (forall j, (j <= maxiter)%N -> ~~ conv j).
 Proof. exact: power_result_none. Qed.
 Print Assumptions C18_power_loop_raises_iff.
 
-(* intended: raise only if none of the iterates 0..maxiter converged.  The
-   iterate produced by the last allowed solve is never accepted. *)
-Theorem C18_power_maxiter_refuted :
-  exists maxiter conv, conv maxiter = true /\ power_result maxiter conv = None.
-Proof. exact: power_maxiter_refuted. Qed.
-Print Assumptions C18_power_maxiter_refuted.
+Theorem C18_power_maxiter_accepts_last_iterate :
+  forall maxiter conv, conv maxiter = true -> power_result maxiter conv <> None.
+Proof. exact: power_maxiter_accepts_last. Qed.
+Print Assumptions C18_power_maxiter_accepts_last_iterate.
 
 (* ---- pseudo_inverse -------------------------------------------------------- *)
 (* P = |rho>><<1|, Q = 1 - P, R = Q (L + s)^-1 Q (s = i*w or 1e-15 i), with the
@@ -265,13 +255,14 @@ Qed.
 Example C18_nonvacuous_exec : exec_example_stmt.
 Proof. exact: exec_example. Qed.
 
-(* a null vector with non-real trace of a genuine generator: see svd_witness
-   (null vector, divisor 13, trace 13+13i) and svd_witness_tp. *)
+(* a null vector with non-real trace of a genuine generator (svd_witness,
+   svd_witness_tp) *)
 Example C18_nonvacuous_svd_complex_phase :
   gz_is_zero_vec (gz_mulv 9 wL wv) = true /\ (gz_eigen_post 3 wv).2 = gz13c.
-Proof. by have [a _ c _] := svd_witness. Qed.
+Proof. by split; vm_compute. Qed.
 
 Example C18_nonvacuous_power_loop :
   power_result 10 (fun k => (2 <= k)%N) = Some 2%N /\
-  power_result 2 (fun k => (2 <= k)%N) = None.
+  power_result 2 (fun k => (2 <= k)%N) = Some 2%N /\
+  power_result 1 (fun k => (2 <= k)%N) = None.
 Proof. by []. Qed.
